@@ -145,7 +145,35 @@ func checkC10(e *RunEnv) *CheckResult {
 		hsum = sum
 		return vs
 	}
-	res := runSpecWith(e, spec, func(x *Explorer) { hvs = runH() }, func(x *Explorer, cov map[string]interface{}) {
+	var extra int
+	res := runSpecWith(e, spec, func(x *Explorer) {
+		hvs = runH()
+		base := x.BuildState(seedS1())
+		if base == nil {
+			return
+		}
+		var cs []Case
+		// branch names up to the longest file name the file system takes
+		for _, l := range []int{100, 200, 240, 241, 245, 250, 251, 255} {
+			nm, nm2 := strings.Repeat("L", l), strings.Repeat("M", l)
+			content := "edit for a long name\n"
+			cs = append(cs, Case{Base: base, BaseName: "S1", BaseSeed: seedS1(), Probe: true, Steps: []Step{
+				Run("switch", "-c", nm), Write("a", content), Run("add", "a"), Run("commit", "-m", "m"), Run("switch", "main"), Run("switch", nm),
+				Run("branch", nm2), Run("switch", nm2), Run("branch", "-d", nm), Run("branch", "-r", nm), Run("switch", "b"), Run("update-ref", "refs/heads/" + nm2, "")}})
+		}
+		// temporary files left behind by an interrupted switch / commit / add
+		left := []Step{Write(".goit/HEAD.tmp", "ref: refs/heads/a-name-longer-than-any-other-branch-name-here\n"), Write(".goit/branch.tmp", strings.Repeat("junk ", 20)), Write(".goit/index.tmp", strings.Repeat("junk ", 200))}
+		for _, tail := range [][]Step{
+			{Run("switch", "b"), Run("switch", "main"), Run("switch", "-c", "c")},
+			{Run("switch", "-c", "c"), Run("switch", "b")},
+			{Run("branch", "n"), Run("switch", "n"), Run("branch", "-r", "m"), Run("branch", "-d", "n")},
+			{Write("a", "edit\n"), Run("add", "a"), Run("commit", "-m", "m"), Run("switch", "b"), Run("reset", "--soft", "HEAD@{1}")},
+		} {
+			cs = append(cs, Case{Base: base, BaseName: "S1", BaseSeed: seedS1(), Probe: true, Steps: append(append([]Step{}, left...), tail...)})
+		}
+		extra = x.RunCases(cs)
+	}, func(x *Explorer, cov map[string]interface{}) {
+		cov["long_name_and_leftover_cases"] = extra
 		cov["in_module_histories"] = hsum.Evaluations
 		cov["in_module_distinct_end_states"] = hsum.Distinct
 		cov["evaluations"] = int(x.Transitions) + int(x.Probes) + hsum.Evaluations
